@@ -170,10 +170,27 @@ func (s *vfSink) poll() []vfRecv {
 	return out
 }
 
-// every test process uses its own 127.a.b.* range so that concurrently running checks never collide
+// every test process uses its own 127.a.b.* range so that concurrently running checks never collide: the range is
+// claimed by binding a lock socket in it (held for the life of the process); a taken range makes us try the next
+var vfIPBaseOnce sync.Once
+var vfIPBaseVal string
+var vfIPBaseLock *net.UDPConn
+
 func vfIPBase() string {
-	pid := os.Getpid()
-	return fmt.Sprintf("127.%d.%d.", 16+pid%200, 1+(pid/200)%250)
+	vfIPBaseOnce.Do(func() {
+		pid := os.Getpid()
+		for i := 0; i < 400; i++ {
+			k := pid + i*7919
+			base := fmt.Sprintf("127.%d.%d.", 16+k%200, 1+(k/200)%250)
+			c, err := net.ListenUDP("udp", &net.UDPAddr{IP: net.ParseIP(base + "254"), Port: 65000})
+			if err == nil {
+				vfIPBaseVal, vfIPBaseLock = base, c
+				return
+			}
+		}
+		panic("VF-INFRA no free 127.a.b.* range")
+	})
+	return vfIPBaseVal
 }
 
 type vfSinks struct {
